@@ -537,6 +537,355 @@ def c_declared(a: fp.Real):
     r = xs[1]
     return (x, r)
 
+
+# ----------------------------------------------------------------- binder forms x name reuse x 0/1/2+ iterations
+# (every target form of for / comprehension / with-as / assignment; the target re-uses a name bound before and the
+#  name is read after; a static context around everything so that constants would be folded)
+
+@fp.fpy
+def b_for_plain_reuse(xs: list[fp.Real]):
+    with fp.FP64:
+        k = 100
+        for k in xs:
+            pass
+        r = k + 1
+    return (k, r)
+
+@fp.fpy
+def b_for_tuple_reuse(xs: list[fp.Real]):
+    with fp.FP64:
+        k = 100
+        x = 7
+        for k, x in enumerate(xs):
+            pass
+        r = k + x
+    return (k, x, r)
+
+@fp.fpy
+def b_for_nested_tuple_reuse(xs: list[fp.Real]):
+    with fp.FP64:
+        i = 50
+        a = 60
+        b = 70
+        for i, (a, b) in enumerate(zip(xs, xs)):
+            b = b + 1
+        r = (i + a) + b
+    return (i, a, b, r)
+
+@fp.fpy
+def b_for_tuple_partial(xs: list[fp.Real]):
+    with fp.FP64:
+        k = 100
+        acc = 0
+        for k, _ in enumerate(xs):
+            acc = acc + k
+        r = k * 2
+    return (k, acc, r)
+
+@fp.fpy
+def b_for_zip_reuse(xs: list[fp.Real], ys: list[fp.Real]):
+    with fp.IEEEContext(5, 16, fp.RM.RNE):
+        p = 1
+        q = 2
+        for p, q in zip(xs, xs):
+            p = p + q
+        r = p - q
+    return (p, q, r)
+
+@fp.fpy
+def b_comp_reuse(xs: list[fp.Real]):
+    with fp.FP64:
+        k = 100
+        a = 5
+        ys = [k + 1 for k in xs]
+        zs = [(i, a) for i, (a, k) in enumerate(zip(xs, xs))]
+        ws = [k * a for k in xs for a in xs]
+        r = k + a
+    return (k, a, ys, zs, ws, r)
+
+@fp.fpy
+def b_with_as_reuse(x: fp.Real):
+    c = 5
+    d = c + 1
+    with fp.IEEEContext(5, 16, fp.RM.RNE) as c:
+        y = x + 1
+        t = 1 / 3
+    with c:
+        z = 1 / 3
+    return (d, y, t, z, c)
+
+@fp.fpy
+def b_assign_tuple_reuse(x: fp.Real, y: fp.Real):
+    with fp.FP64:
+        k = 100
+        m = 200
+        (k, m) = (m, k)
+        (k, (m, n)) = (x, (k, m))
+        r = (k + m) + n
+    return (k, m, n, r)
+
+@fp.fpy
+def b_while_rebind(n: fp.Real):
+    with fp.FP64:
+        k = 100
+        i = 0
+        while i < n and i < 2:
+            k = i
+            i = i + 1
+        r = k + 1
+    return (k, i, r)
+
+@fp.fpy
+def b_for_in_for(xss: list[list[fp.Real]]):
+    with fp.FP64:
+        k = 100
+        x = 200
+        s = 0
+        for k, row in enumerate(xss):
+            for x in row:
+                s = s + x
+            for k, x in enumerate(row):
+                pass
+        r = k + x
+    return (k, x, s, r)
+
+@fp.fpy
+def b_if_in_loop(xs: list[fp.Real]):
+    with fp.FP64:
+        k = 100
+        j = 300
+        for i, x in enumerate(xs):
+            if x > 0:
+                k = i
+            else:
+                j = i
+        r = k + j
+    return (k, j, r)
+
+# ----------------------------------------------------------------- context forms nested in static ones, constants inside
+
+@fp.fpy
+def x_ctx_computed(p: fp.Real):
+    with fp.FP64:
+        a = 1 / 3
+        with fp.MPFloatContext(p, fp.RM.RNE):
+            y = 1 / 3
+            z = y + 1
+        w = y * 1
+    return (a, y, z, w)
+
+@fp.fpy
+def x_ctx_computed_ieee(es: fp.Real, nb: fp.Real):
+    with fp.IEEEContext(5, 16, fp.RM.RNE):
+        a = 0.1 + 0.2
+        with fp.IEEEContext(es, nb, fp.RM.RTZ) as c:
+            y = 0.1 + 0.2
+            with fp.FP64:
+                u = 0.1 + 0.2
+            v = u + y
+        w = y + 0
+    return (a, y, u, v, w)
+
+@fp.fpy
+def x_ctx_passed(c: fp.Context, x: fp.Real):
+    with fp.FP64:
+        a = 1 / 3
+        with c:
+            y = 1 / 3
+            z = y + x * 0
+        w = y + 0
+    return (a, y, z, w)
+
+@fp.fpy(ctx=fp.IEEEContext(8, 32, fp.RM.RNE))
+def x_ctx_declared_inner(p: fp.Real):
+    a = 1 / 3
+    with fp.MPFixedContext(p, fp.RM.RTZ):
+        y = 1 / 3
+    with fp.REAL:
+        q = 2 + 2
+        with fp.MPFloatContext(p + 10, fp.RM.RAZ):
+            z = 1 / 3
+    return (a, y, q, z)
+
+@fp.fpy
+def x_ctx_cond(c: fp.Context, d: fp.Context, t: bool):
+    with fp.FP64:
+        e = c if t else d
+        with e:
+            y = 1 / 3
+        k = 0
+        while k < 2:
+            with (d if k > 0 else c):
+                y = y + 1 / 3
+            k = k + 1
+    return (y, k)
+
+# ----------------------------------------------------------------- callees with symbolic / nested list sizes, several sites
+
+@fp.fpy
+def h_rows(m: list[list[fp.Real]]):
+    return m
+
+@fp.fpy
+def h_scale(xs: list[fp.Real], a: fp.Real):
+    return [x * a for x in xs]
+
+@fp.fpy
+def h_pair(xs: list[fp.Real], ys: list[fp.Real]):
+    return (xs, [y for y in ys])
+
+@fp.fpy
+def z_calls_fpy(a: list[list[fp.Real]], b: list[list[fp.Real]], xs: list[fp.Real], ys: list[fp.Real]):
+    x = h_rows(a)
+    y = h_rows(b)
+    u = h_scale(xs, 2.0)
+    v = h_scale(ys, 3.0)
+    p, q = h_pair(xs, ys)
+    s, t = h_pair(ys, xs)
+    return (x, y, u, v, p, q, s, t)
+
+try:
+    import titanfp.fpbench.fpcparser as _fpcparser
+    def _import_fpcore(src):
+        return fp.Function.from_fpcore(_fpcparser.compile1(src), ignore_unknown=True)
+    fc_rows = _import_fpcore('(FPCore rows ((A m n)) :precision binary64 A)')
+    fc_cols = _import_fpcore('(FPCore cols ((B k n)) :precision binary64 B)')
+    fc_vec = _import_fpcore('(FPCore vec ((v n)) :precision binary64 v)')
+
+    @fp.fpy
+    def z_calls_fpcore(a: list[list[fp.Real]], b: list[list[fp.Real]], xs: list[fp.Real], ys: list[fp.Real]):
+        x = fc_rows(a)
+        y = fc_cols(b)
+        u = fc_vec(xs)
+        v = fc_vec(ys)
+        w = fc_rows(b)
+        return (x, y, u, v, w)
+
+    @fp.fpy
+    def z_calls_fpcore_mixed(a: list[list[fp.Real]], xs: list[fp.Real]):
+        x = fc_rows(a)
+        u = fc_vec(xs)
+        r = [len(row) for row in x]
+        return (x, u, r, len(u))
+    _FPCORE = [z_calls_fpcore, z_calls_fpcore_mixed]
+except Exception:   # titanfp missing / the importer rejects the kernels: the FPy callees still run
+    _FPCORE = []
+
+# ----------------------------------------------------------------- remaining visitor arms: nullary ops, literal forms, captured values, projections / dim / size / range / empty, assert-pinned sizes, effect statements
+G_NUM = 2.5
+G_FLAG = True
+G_LIST = [1.0, 2.0, 3.0]
+G_PAIR = (1.0, [4.0, 5.0])
+G_EMPTY = []
+
+@fp.fpy
+def u_nullary(x: fp.Real):
+    with fp.IEEEContext(5, 16, fp.RM.RNE):
+        a = fp.nan()
+        b = fp.inf()
+        c = fp.const_pi()
+        d = c * 2
+        e = (a if fp.isnan(x) else b)
+    with fp.MPFixedContext(-8, fp.RM.RTZ):
+        f = fp.const_e()
+    return (a, b, c, d, e, f)
+
+@fp.fpy
+def u_nullary_real(x: fp.Real):
+    with fp.REAL:
+        a = fp.nan()
+        b = fp.inf()
+        c = -b
+        d = a + x
+        e = b * x
+    return (a, b, c, d, e)
+
+@fp.fpy
+def u_free_empty(x: fp.Real):
+    e = G_EMPTY
+    n = len(e)
+    return (e, n, x)
+
+@fp.fpy
+def u_assert_or(xs: list[fp.Real], ys: list[fp.Real]):
+    assert len(xs) == 3 or len(xs) == len(ys)
+    assert not (len(ys) == 5)
+    w = [x + 1 for x in xs]
+    return (w, ys, len(xs), len(ys))
+
+@fp.fpy
+def u_literals(x: fp.Real):
+    with fp.FP64:
+        a = fp.hexfloat('0x1.8p1')
+        b = fp.rational(1, 3)
+        c = fp.digits(3, -1, 2)
+        d = a + b
+        e = c * x
+        f = 0x10 + 1e-2
+    return (a, b, c, d, e, f)
+
+@fp.fpy
+def u_free(x: fp.Real):
+    with fp.FP64:
+        a = G_NUM + 1
+        b = (x if G_FLAG else a)
+        c = G_LIST[1]
+        d = [v * 2 for v in G_LIST]
+        n = len(G_LIST)
+    return (a, b, c, d, n)
+
+@fp.fpy
+def u_free_pair(x: fp.Real):
+    with fp.FP64:
+        p, q = G_PAIR
+        e = q[0] + p
+    return (e, q, p + x)
+
+@fp.fpy
+def u_free_lengths():
+    # C13-F8: two captured lists of different lengths and the same element type
+    c = G_LIST[1]
+    p, q = G_PAIR
+    return (c, q)
+
+@fp.fpy
+def u_struct(xs: list[fp.Real], t: tuple[fp.Real, list[fp.Real]]):
+    a = fp.fst(t)
+    b = fp.snd(t)
+    c = fp.dim(xs)
+    d = fp.size(xs, 0)
+    e = [i for i in range(1, 4)]
+    f = [i for i in range(0, 6, 2)]
+    g = fp.empty(3)
+    g[0] = a
+    g[1] = a
+    g[2] = a
+    h = [v for v in range(len(xs) + 1)]
+    k = [v for v in range(len(xs) - 0)]
+    b[0] = a
+    return (a, b, c, d, e, f, g, h, k, t)
+
+@fp.fpy
+def u_assert_sizes(xs: list[fp.Real], ys: list[fp.Real], zs: list[fp.Real]):
+    assert len(xs) == 3 and len(ys) == len(zs)
+    assert 2 == len(ys)
+    w = [x + 1 for x in xs]
+    v = [y + z for y, z in zip(ys, zs)]
+    return (w, v, len(xs), len(zs))
+
+@fp.fpy
+def h_effect(xs: list[fp.Real]):
+    xs[0] = 9.0
+    return 0.0
+
+@fp.fpy
+def u_effect(a: fp.Real):
+    xs = [a, 2.0]
+    h_effect(xs)
+    with fp.IEEEContext(5, 16, fp.RM.RNE):
+        r = xs[0]
+    return (r, xs)
+
 SR = fp.MPFloatContext(2, fp.RM.RNE, 4)
 
 @fp.fpy
@@ -552,14 +901,50 @@ ALL = [t_bind, t_bind_const, t_index_nested, t_slice, t_slice_flat, t_construct,
        v_while_refine,
        s_sizes, s_phi_sizes, s_grow, s_nested, s_ragged, s_assert, s_early_return, s_early_return_assert,
        s_alias_store, s_alias_store_const, s_row_alias_store, s_direct_store, s_loop_alias_store, s_callee_store,
-       c_signed_zero, c_signed_zero_loop, c_fold, c_declared, c_stochastic]
+       c_signed_zero, c_signed_zero_loop, c_fold, c_declared, c_stochastic,
+       b_for_plain_reuse, b_for_tuple_reuse, b_for_nested_tuple_reuse, b_for_tuple_partial, b_for_zip_reuse, b_comp_reuse, b_with_as_reuse,
+       b_assign_tuple_reuse, b_while_rebind, b_for_in_for, b_if_in_loop,
+       x_ctx_computed, x_ctx_computed_ieee, x_ctx_passed, x_ctx_declared_inner, x_ctx_cond,
+       z_calls_fpy, u_nullary, u_nullary_real, u_free_empty, u_assert_or, u_literals, u_free, u_free_pair, u_free_lengths, u_struct, u_assert_sizes, u_effect] + _FPCORE
 
-NO_ALIAS_CHECK = {'t_call_ident', 's_callee_store'}   # sharing created by a callee: counted, not judged
+NO_ALIAS_CHECK = {'t_call_ident', 's_callee_store', 'z_calls_fpy', 'z_calls_fpcore', 'z_calls_fpcore_mixed'}   # sharing created by a callee: counted, not judged
 
 # deterministic reproductions of the findings this corpus was written around (always run, before the random inputs):
 # C13-F1 (+0/-0 merged at a phi), C13-F2 (list constant kept across a mutation through an alias / a callee),
 # C13-F3 (zip / assert after a conditional early return), C13-F5 (c_stochastic: no arguments, run repeatedly), C13-F6 below
 FIXED = {
+    'u_nullary': [(1.0,), (float('nan'),)],
+    'u_literals': [(2.0,)],
+    'u_nullary_real': [(1.0,), (0.0,)],
+    'u_free_empty': [(1.0,)],
+    'u_assert_or': [([1.0, 2.0, 3.0], [1.0, 2.0]), ([1.0, 2.0], [3.0, 4.0])],
+    'u_free': [(1.0,)],
+    'u_free_pair': [(1.0,)],
+    'u_struct': [([1.0, 2.0], (5.0, [6.0, 7.0]))],
+    'u_assert_sizes': [([1.0, 2.0, 3.0], [1.0, 2.0], [3.0, 4.0]), ([1.0], [1.0, 2.0], [3.0, 4.0])],
+    'u_effect': [(1.0,)],
+    # binder forms: 0, 1, 2+ iterations
+    'b_for_plain_reuse': [([],), ([1.0],), ([1.0, 2.0, 3.0],)],
+    'b_for_tuple_reuse': [([],), ([1.0],), ([1.0, 2.0, 3.0],)],
+    'b_for_nested_tuple_reuse': [([],), ([1.0],), ([1.0, 2.0, 3.0],)],
+    'b_for_tuple_partial': [([],), ([1.0],), ([1.0, 2.0, 3.0],)],
+    'b_for_zip_reuse': [([], []), ([4.0], [1.0]), ([4.0, 5.0], [1.0, 2.0])],
+    'b_comp_reuse': [([],), ([1.0],), ([1.0, 2.0],)],
+    'b_with_as_reuse': [(1.0,)],
+    'b_assign_tuple_reuse': [(1.0, 2.0)],
+    'b_while_rebind': [(0.0,), (1.0,), (5.0,)],
+    'b_for_in_for': [([],), ([[]],), ([[1.0]],), ([[1.0, 2.0], [3.0]],)],
+    'b_if_in_loop': [([],), ([1.0],), ([-1.0],), ([1.0, -1.0, 2.0],)],
+    # context forms: the computed context differs from the enclosing static one
+    'x_ctx_computed': [(3,), (11,), (53,)],
+    'x_ctx_computed_ieee': [(4, 8), (8, 32), (11, 64)],
+    'x_ctx_passed': [(fp.IEEEContext(5, 16, fp.RM.RNE), 1.0), (fp.MPFloatContext(3, fp.RM.RNE), 2.0), (fp.FP64, 0.0), (fp.REAL, 1.0)],
+    'x_ctx_declared_inner': [(-3,), (-6,)],
+    'x_ctx_cond': [(fp.IEEEContext(5, 16, fp.RM.RNE), fp.MPFloatContext(3, fp.RM.RNE), True), (fp.IEEEContext(5, 16, fp.RM.RNE), fp.MPFloatContext(3, fp.RM.RNE), False)],
+    # callees from several sites with different actual sizes
+    'z_calls_fpy': [([[1.0, 2.0], [3.0, 4.0]], [[1.0, 2.0, 3.0]], [1.0], [1.0, 2.0, 3.0, 4.0])],
+    'z_calls_fpcore': [([[1.0, 2.0], [3.0, 4.0]], [[1.0, 2.0, 3.0]], [1.0], [1.0, 2.0, 3.0, 4.0]), ([[1.0]], [[1.0, 2.0], [3.0, 4.0], [5.0, 6.0]], [1.0, 2.0], [3.0])],
+    'z_calls_fpcore_mixed': [([[1.0, 2.0], [3.0, 4.0], [5.0, 6.0]], [1.0, 2.0, 3.0, 4.0, 5.0])],
     'c_signed_zero': [(True,), (False,)],
     'c_signed_zero_loop': [(2.0,), (0.0,)],
     't_bind_const': [(5.0,)],
